@@ -62,6 +62,8 @@ def run(ck):
     hs = [H('c12_insertions', cap=900, meaning='tables of inserted leap seconds only: l2u = declarative spec, monotone, round trip, Galois connection with a transition count, inserted second shares the next UTC value'),
           H('c12_with_deletions', cap=900, meaning='same with at least one record that lowers the correction (negative leap second)'),
           H('c12_lookup_switch', cap=1200, meaning='find_local_time_type switches type exactly at the UTC instant the transition count denotes (<=2 leap records)')]
+    if not quick:
+        hs.append(H('c12_four_records', cap=7200, required=False, playback=True, meaning='tables of <= 4 records: l2u = spec, monotone, round trip, Galois connection'))
     B.run(hs)
     nat = None
     for h in hs:
